@@ -11,6 +11,11 @@
 //  bool      <-> 0/1
 // math.h/limits.h are included the way the unit tests do: with <fixedmath/fixed_math.hpp> a direct call of
 // arithmetic_to_fixed() is ambiguous (the umbrella header re-declares it with a different template head).
+// One configuration (VERIF_UMBRELLA) includes the umbrella header first, the way the README tells users to; there the
+// direct arithmetic_to_fixed() wrappers go through make_fixed() instead (see a2f_* below).
+#if defined(VERIF_UMBRELLA)
+#include <fixedmath/fixed_math.hpp>
+#endif
 #include <fixedmath/limits.h>
 #include <fixedmath/math.h>
 #include <fixedmath/iostream.h>
@@ -58,6 +63,11 @@ template<class A, class B, class R> constexpr bool result_type_ok =
   (std::is_same_v<A, double> || std::is_same_v<B, double>) ? std::is_same_v<R, double> : std::is_same_v<R, fixed_t>;
 }
 
+#if defined(VERIF_UMBRELLA)
+#define VERIF_A2F(x) make_fixed(x)
+#else
+#define VERIF_A2F(x) arithmetic_to_fixed(x)
+#endif
 #if !defined(VERIF_KERNELS_ONLY)
 struct w_entry { const char * name; int64_t (*fn)(int64_t, int64_t); };
 #endif
@@ -160,6 +170,31 @@ W(addeq_ref_self) { UNUSED_B; fixed_t x{as_fixed(a)}; acc_add(x, x); return x.v;
 W(subeq_ref_self) { UNUSED_B; fixed_t x{as_fixed(a)}; acc_sub(x, x); return x.v; }
 W(muleq_ref_self) { UNUSED_B; fixed_t x{as_fixed(a)}; acc_mul(x, x); return x.v; }
 W(diveq_ref_self) { UNUSED_B; fixed_t x{as_fixed(a)}; acc_div(x, x); return x.v; }
+// stateful shapes: the same operation twice in one function with an operand object modified in between; the wrapper
+// returns the SECOND result (argument b2 = b ^ 0x5a5a), the first one is kept alive through a volatile sink. A wrong
+// [[gnu::const]]/[[gnu::pure]] on a function that reads through a reference or `this` lets an optimiser reuse the first result.
+namespace { volatile int64_t verif_sink; }
+#define REASSIGN_BIN(name, op) \
+  W_RT(name##_reassign) { fixed_t p{as_fixed(a)}, s{as_fixed(b)}; fixed_t r1 = p op s; verif_sink = r1.v; s = as_fixed(b ^ 0x5a5a); fixed_t r2 = p op s; return r2.v; } \
+  W_RT(name##_reassign_l) { fixed_t p{as_fixed(a)}, s{as_fixed(b)}; fixed_t r1 = p op s; verif_sink = r1.v; p = as_fixed(a ^ 0x5a5a); fixed_t r2 = p op s; return r2.v; }
+REASSIGN_BIN(add, +)
+REASSIGN_BIN(sub, -)
+REASSIGN_BIN(mul, *)
+REASSIGN_BIN(div, /)
+#define REASSIGN_UN(name, expr) \
+  W_RT(name##_reassign) { UNUSED_B; fixed_t x{as_fixed(a)}; auto r1 = expr; verif_sink = ret(r1); x = as_fixed(a ^ 0x5a5a); auto r2 = expr; return ret(r2); }
+REASSIGN_UN(cast_i32, static_cast<int32_t>(x))
+REASSIGN_UN(cast_i64, static_cast<int64_t>(x))
+REASSIGN_UN(cast_u16, static_cast<uint16_t>(x))
+REASSIGN_UN(cast_f64, static_cast<double>(x))
+REASSIGN_UN(cast_f32, static_cast<float>(x))
+REASSIGN_UN(neg, -x)
+REASSIGN_UN(abs, abs(x))
+REASSIGN_UN(isnan, isnan(x))
+REASSIGN_UN(sin, sin(x))
+REASSIGN_UN(sqrt, sqrt(x))
+REASSIGN_UN(floor, floor(x))
+REASSIGN_UN(ceil, ceil(x))
 // (a+b)-b in one expression (C17), the optimiser sees both operations
 W(add_sub_back) { return ((as_fixed(a) + as_fixed(b)) - as_fixed(b)).v; }
 W(sub_add_back) { return ((as_fixed(a) - as_fixed(b)) + as_fixed(b)).v; }
@@ -229,7 +264,7 @@ W_RT(ostream) { UNUSED_B; std::ostringstream s; s << as_fixed(a); std::string t 
 
 #define CONV_COMMON(T, tag) \
   W(ctor_##tag) { UNUSED_B; return fixed_t{arg<T>(a)}.v; } \
-  W(a2f_##tag) { UNUSED_B; return arithmetic_to_fixed(arg<T>(a)).v; } \
+  W(a2f_##tag) { UNUSED_B; return VERIF_A2F(arg<T>(a)).v; } \
   W(mkf_##tag) { UNUSED_B; return make_fixed(arg<T>(a)).v; } \
   W(cast_##tag) { UNUSED_B; return ret(static_cast<T>(as_fixed(a))); } \
   W(f2a_##tag) { UNUSED_B; return ret(fixed_to_arithmetic<T>(as_fixed(a))); } \
@@ -266,7 +301,7 @@ MIXED_EQ(add, +=, float, f32) MIXED_EQ(sub, -=, float, f32) MIXED_EQ(mul, *=, fl
 // double: `a op= double` is ill-formed on the pinned tree (fixed_t = double needs an explicit conversion) and
 // *_angle(double) does not compile; only conversions and the four binary operators exist.
 W(ctor_f64) { UNUSED_B; return fixed_t{arg<double>(a)}.v; }
-W(a2f_f64) { UNUSED_B; return arithmetic_to_fixed(arg<double>(a)).v; }
+W(a2f_f64) { UNUSED_B; return VERIF_A2F(arg<double>(a)).v; }
 W(mkf_f64) { UNUSED_B; return make_fixed(arg<double>(a)).v; }
 W(cast_f64) { UNUSED_B; return ret(static_cast<double>(as_fixed(a))); }
 W(f2a_f64) { UNUSED_B; return ret(fixed_to_arithmetic<double>(as_fixed(a))); }
@@ -299,6 +334,9 @@ extern "C" const w_entry w_entries[] = {
   E_CONST(max) E_CONST(low) E_CONST(p1) E_CONST(m1) E_CONST(p2) E_CONST(m2) E_CONST(big) E_CONST(mbig)
   E_CONST(p62) E_CONST(m62) E_CONST(one) E_CONST(p47)
   E(add_accum) E(sub_accum) E(add_sub_back) E(sub_add_back)
+  E(add_reassign) E(add_reassign_l) E(sub_reassign) E(sub_reassign_l) E(mul_reassign) E(mul_reassign_l) E(div_reassign) E(div_reassign_l)
+  E(cast_i32_reassign) E(cast_i64_reassign) E(cast_u16_reassign) E(cast_f64_reassign) E(cast_f32_reassign) E(neg_reassign) E(abs_reassign) E(isnan_reassign)
+  E(sin_reassign) E(sqrt_reassign) E(floor_reassign) E(ceil_reassign)
   E_KSCALAR(i2) E_KSCALAR(i3) E_KSCALAR(i4) E_KSCALAR(im1) E_KSCALAR(i0) E_KSCALAR(i65536) E_KSCALAR(l2p20) E_KSCALAR(u16_8) E_KSCALAR(lprime) E_KSCALAR(u64big)
   E(addeq_self) E(subeq_self) E(muleq_self) E(diveq_self) E(addeq_ref_self) E(subeq_ref_self) E(muleq_ref_self) E(diveq_ref_self)
   E(neg) E(abs) E(isnan) E(cmp_lt) E(cmp_le) E(cmp_gt) E(cmp_ge) E(cmp_eq) E(cmp_ne)
